@@ -10,6 +10,11 @@ T: `tries <hex of code item> <ntypes>` — the compiled model against
      raw  : real DalvikCode(buff, cm) + determineException on a bare code item (exact, with
             trailing garbage, truncated, byte-mutated, dangling handler offsets); this stream
             also compares the number of bytes the constructor consumed.
+   history : on the real objects of the written files (padded LEB128s and shared handler lists
+            included) a seeded sequence of read-only / serialising calls (get_raw, get_size, get_length,
+            show, get_tries, get_handlers, determineException, MethodAnalysis, CodeItem.get_raw/
+            get_length/show); after EVERY call the try table is asked again.  The model is a
+            pure function of the code item bytes, so the expected answer never changes.
 S: oracle = the generator's own try list (plain tuples, no decoding at all) for the written
    files; for the shipped files a 40-line reader of the code_item layout written from the DEX
    format document.  The reported ranges must be a permutation of the expected ones, each
@@ -28,6 +33,30 @@ import zipfile
 from harness import fw
 from harness.fw import Check, Driver, hexs
 from harness import dexasm as A
+
+PINS = [
+    ("androguard/core/dex/__init__.py", "determineException"),
+    ("androguard/core/dex/__init__.py", "DalvikCode.__init__"),
+    ("androguard/core/dex/__init__.py", "DalvikCode.get_raw"),
+    ("androguard/core/dex/__init__.py", "DalvikCode.get_size"),
+    ("androguard/core/dex/__init__.py", "TryItem.__init__"),
+    ("androguard/core/dex/__init__.py", "TryItem.get_raw"),
+    ("androguard/core/dex/__init__.py", "EncodedCatchHandlerList.__init__"),
+    ("androguard/core/dex/__init__.py", "EncodedCatchHandlerList.get_raw"),
+    ("androguard/core/dex/__init__.py", "EncodedCatchHandlerList.get_length"),
+    ("androguard/core/dex/__init__.py", "EncodedCatchHandlerList.set_off"),
+    ("androguard/core/dex/__init__.py", "EncodedCatchHandler.__init__"),
+    ("androguard/core/dex/__init__.py", "EncodedCatchHandler.get_raw"),
+    ("androguard/core/dex/__init__.py", "EncodedCatchHandler.get_length"),
+    ("androguard/core/dex/__init__.py", "EncodedCatchHandler.set_off"),
+    ("androguard/core/dex/__init__.py", "EncodedTypeAddrPair.__init__"),
+    ("androguard/core/dex/__init__.py", "EncodedTypeAddrPair.get_raw"),
+    ("androguard/core/dex/__init__.py", "CodeItem.__init__"),
+    ("androguard/core/dex/__init__.py", "CodeItem.get_raw"),
+    ("androguard/core/dex/__init__.py", "CodeItem.get_length"),
+    ("androguard/core/dex/__init__.py", "EncodedMethod.get_code"),
+    ("androguard/core/dex/__init__.py", "ClassManager.get_code"),
+]
 
 THROWABLE = "Ljava/lang/Throwable;"
 INVALID = "AG:ITI: invalid type"
@@ -429,6 +458,88 @@ def raw_cases(rng, item: bytes, tries_off: int, ntries: int, hoffs, n):
     return out
 
 
+# --------------------------------------------------------------------------- history stream
+HIST_OPS = ["code.get_raw", "code.get_size", "code.get_length", "code.show", "code.get_tries", "code.get_handlers",
+            "list.get_raw", "list.get_length", "list.show", "handler.get_raw", "handler.get_length", "try.get_raw",
+            "determineException", "MethodAnalysis", "codes.get_raw", "codes.get_length", "codes.show"]
+# DEX.save() ("beta: do not use") is not in the menu: on the unchanged tree it raises (AttributeError 'HeaderItem' has
+# no 'elem' on written files, KeyError on tests/data/APK/Test.dex) after having moved some offsets.
+
+
+def apply_op(dex, vm, m, op):
+    """one read-only / serialising call on the real objects; returns a short outcome tag"""
+    import contextlib
+    from androguard.core.androconf import CONF
+    code = m.get_code() if m is not None else None
+    sink = io.StringIO()
+    saved = CONF.get("PRINT_FCT")
+    CONF["PRINT_FCT"] = sink.write          # show() prints through CONF["PRINT_FCT"]
+    try:
+        with contextlib.redirect_stdout(sink), contextlib.redirect_stderr(sink):
+            if op.startswith("code.") and code is not None:
+                getattr(code, op[5:])()
+            elif op.startswith("list.") and code is not None and code.get_handlers() is not None:
+                getattr(code.get_handlers(), op[5:])()
+            elif op.startswith("handler.") and code is not None and code.get_handlers() is not None:
+                for h in code.get_handlers().get_list():
+                    getattr(h, op[8:])()
+            elif op == "try.get_raw" and code is not None:
+                for t in code.get_tries():
+                    t.get_raw()
+            elif op == "determineException" and code is not None:
+                dex.determineException(vm, m)
+            elif op == "MethodAnalysis" and code is not None:
+                from androguard.core.analysis.analysis import MethodAnalysis
+                MethodAnalysis(vm, m)
+            elif op.startswith("codes."):
+                getattr(vm.get_codes_item(), op[6:])()
+    except Exception as e:  # noqa   the call itself is not judged here, only the try table afterwards
+        return "raised:" + type(e).__name__
+    finally:
+        CONF["PRINT_FCT"] = saved
+    return "ok"
+
+
+def table_now(dex, vm, m):
+    """what the three observation points say right now"""
+    code = m.get_code()
+    if code is None:
+        return None, None, None
+    _, r = e_part(lambda: dex.determineException(vm, m))
+    tr = [(t.get_start_addr(), t.get_insn_count()) for t in code.get_tries()]
+    hl = code.get_handlers()
+    return r, tr, (None if hl is None else len(hl.get_list()))
+
+
+def run_history(ck, dex, data, methods, types, ops, shared, pad):
+    """methods: [(name, tries)] with code; ops: [(op, method index)].  Oracle after every step.
+    Returns (number of observations, outcome tags)."""
+    vm = dex.DEX(data)
+    ms = {m.get_name(): m for m in vm.get_encoded_methods()}
+    exp = {n: expected_ranges(tr, types) for n, tr in methods}
+    nobs, tags = 0, {}
+    done = []
+    for op, mi in ops:
+        name = methods[mi][0]
+        tag = apply_op(dex, vm, ms[name], op)
+        tags[op + " " + tag] = tags.get(op + " " + tag, 0) + 1
+        done.append([op, name])
+        for n, tr in methods:
+            r, got_tr, nl = table_now(dex, vm, ms[n])
+            nobs += 1
+            what = None
+            if not ranges_match(exp[n], r):
+                what, e, o = "after a read-only/serialising call determineException reports other ranges than the encoded ones", exp[n], r
+            elif got_tr != [(t[0], t[1]) for t in tr]:
+                what, e, o = "after a read-only/serialising call get_tries() differs from the encoded try items", [(t[0], t[1]) for t in tr], got_tr
+            if what:
+                ck.fail({"kind": "history", "dex": hexs(data), "ops": list(done), "method": n, "tries": tr,
+                         "shared": shared, "leb_pad": pad}, what, None, e,
+                        o if o is not None else "exception in determineException")
+                return nobs, tags, vm, ms
+    return nobs, tags, vm, ms
+
+
 # --------------------------------------------------------------------------- corpus
 def corpus_cases():
     out = []
@@ -464,6 +575,8 @@ def check_raw_case(ck, dex, case):
 
 # --------------------------------------------------------------------------- run
 def run(ck: Check):
+    ck.pins_changed(PINS)
+    big = (not ck.quick) or ck.escalated          # a changed modelled function: thorough sizes in the quick tier
     dex = _dex()
     t0 = time.time()
     ck.run_gen("triesconsts")
@@ -474,7 +587,8 @@ def run(ck: Check):
     ck.rule = ("written files: every shape with <=2 tries over a 4-entry handler menu x both parities, then seeded random "
                "methods (1..K tries, sorted or wild ranges, shared/distinct handler lists, typed+catch-all, 0..4 extra LEB "
                "bytes, odd/even instruction counts, methods without tries in between); raw: each written code item exact, "
-               "with a garbage tail, truncated, with dangling handler offsets, byte flips, edited tries_size; shipped: "
+               "with a garbage tail, truncated, with dangling handler offsets, byte flips, edited tries_size; history: per written "
+               "file 4..9 seeded read-only/serialising calls on the real objects, the try table of every method re-asked after each; shipped: "
                "methods of tests/data/APK. distinct = distinct code item bytes with at least one try")
     distinct = set()
     dist = {"file_methods": 0, "file_tries": 0, "odd_padded": 0, "odd_no_tries": 0, "shared_files": 0, "wild_methods": 0,
@@ -491,7 +605,7 @@ def run(ck: Check):
         ck.cover(evaluations=len(reqs))
 
     # -- written files: file stream + oracle, then raw stream from the same items
-    nfiles = 150 if ck.quick else 1500
+    nfiles = 1500 if big else 150
     per_file = 14
     plan = []
     ss = small_scope()
@@ -516,7 +630,9 @@ def run(ck: Check):
 
     f_reqs, f_real, f_names = [], [], []
     r_reqs, r_real = [], []
-    nraw = 6 if ck.quick else 10
+    h_reqs, h_real, h_names = [], [], []
+    hist_files, hist_obs, hist_tags = 0, 0, {}
+    nraw = 10 if big else 6
     for ms, shared, pad, wild in plan:
         try:
             data, b, refs = build_file(ms, shared, pad)
@@ -532,6 +648,22 @@ def run(ck: Check):
             continue
         dist["shared_files"] += int(shared)
         dist["leb_pad"][str(pad)] = dist["leb_pad"].get(str(pad), 0) + 1
+        # history stream: fresh objects of the same file, seeded calls, the try table re-asked after each
+        hm = [(ref[1], tr or []) for (u, tr), ref in zip(ms, refs) if ref is not None]
+        with_tries = [i for i, (_, tr) in enumerate(hm) if tr] or list(range(len(hm)))
+        if hm:
+            ops = [(rng.choice(HIST_OPS), rng.choice(with_tries)) for _ in range(rng.randrange(4, 10))]
+            nobs, tags, hvm, hms = run_history(ck, dex, data, hm, types, ops, shared, pad)
+            hist_files += 1
+            hist_obs += nobs
+            for k, v in tags.items():
+                hist_tags[k] = hist_tags.get(k, 0) + v
+            for n, tr in hm:           # tie: the model of the original bytes against the objects after the history
+                off = b.layout["code"][("LGen;", n, "V", ())]
+                end = walk_code_item(data, off)[1]
+                h_reqs.append("tries %s %d" % (hexs(data[off:end]), len(types)))
+                h_real.append(real_file_method(dex, hvm, hms[n])[0])
+                h_names.append(types)
         for (units, tries), ref in zip(ms, refs):
             if ref is None:
                 continue
@@ -611,6 +743,11 @@ def run(ck: Check):
                         elif info[1] != len(item):
                             ck.fail(rcase, "DalvikCode consumed a different number of bytes than the code item has "
                                     "(padding rule)", None, len(item), info[1])
+    model = drv.ask(h_reqs)
+    ck.compare("history", h_reqs, h_real,
+               [canon_model(l, (lambda i, t=t: t[i]), True) for l, t in zip(model, h_names)])
+    dist["history"] = {"files": hist_files, "observations": hist_obs, "calls": hist_tags}
+    ck.cover(evaluations=hist_obs)
     model = drv.ask(f_reqs)
     ck.compare("file", f_reqs, f_real,
                [canon_model(l, (lambda i, t=t: t[i]), True) for l, t in zip(model, f_names)])
@@ -621,9 +758,9 @@ def run(ck: Check):
 
     # -- shipped files
     files = shipped_dex()
-    every = 8 if ck.quick else 1
+    every = 1 if big else 8
     jobs = [(n, d, every) for n, d in files]
-    if ck.quick:
+    if ck.quick and not big:
         results = map(shipped_worker, jobs)
     else:
         import multiprocessing
@@ -647,7 +784,7 @@ def run(ck: Check):
             for rq, ln in zip(reqs, real):
                 if " ts= " not in ln:
                     sdist.add(rq)
-    if not ck.quick:
+    if big or not ck.quick:
         pool.close(); pool.join()
     ck.cover(evaluations=sd["methods"], distinct=(("s", hashlib.sha256(x.encode()).digest()[:8]) for x in sdist),
              dist={"shipped": sd})
@@ -658,6 +795,11 @@ def run(ck: Check):
     ck.assumptions.append("struct's little-endian H/I unpack is modelled as a + 256 b (+ …); file offsets are modelled relative "
                           "to the code item (determineException only compares sums shifted by the same constant); "
                           "vm.get_cm_type is a parameter of the model (its result is compared through an independent type table)")
+    ck.notes.append("history stream: the model is a pure function of the code item bytes, so after any sequence of read-only / "
+                    "serialising calls (get_raw, get_size, get_length, show, get_tries, get_handlers, determineException, "
+                    "MethodAnalysis, CodeItem.get_raw/get_length/show) on the same objects the expected try table is the one of "
+                    "the fresh parse; the oracle (generator's try list) is evaluated after every call. DEX.save() is not in "
+                    "the menu: it raises on the unchanged tree")
     ck.notes.append("the order of the reported ranges follows the grouping by handler offset (first use); the property "
                     "constrains the set of ranges and each range's handler order, which is what the oracle compares")
 
@@ -671,6 +813,28 @@ def replay(ck: Check, rp):
         print("real now (bare code item):", real_raw(dex, bytes.fromhex(h) if h != "-" else b"", int(n))[0])
         return 0
     kind = c.get("kind")
+    if kind == "history":
+        data = bytes.fromhex(c["dex"])
+        vm = dex.DEX(data)
+        ms = {m.get_name(): m for m in vm.get_encoded_methods()}
+        types = []
+        while vm.get_cm_type(len(types)) != INVALID:
+            types.append(vm.get_cm_type(len(types)))
+        tries = [(s, cc, [tuple(x) for x in typed], ca) for s, cc, typed, ca in c["tries"]]
+        exp = expected_ranges(tries, types)
+        m = ms[c["method"]]
+        print("method", c["method"], "encoded tries:", tries)
+        print("expected at every point (any order of ranges):", exp)
+        r = table_now(dex, vm, m)[0]
+        print("fresh parse:", r, "match:", ranges_match(exp, r))
+        ok = ranges_match(exp, r)
+        for op, name in c["ops"]:
+            tag = apply_op(dex, vm, ms[name], op)
+            r = table_now(dex, vm, m)[0]
+            good = ranges_match(exp, r)
+            print("after %s on %s (%s):" % (op, name, tag), r if r is not None else "exception", "match:", good)
+            ok = ok and good
+        return 0 if ok else 1
     if kind == "file":
         data = bytes.fromhex(c["dex"])
         try:
